@@ -180,7 +180,9 @@ func nselRun(idx int, line string, seed int64, stats *nselStats) (divs []nselDiv
 					return divs, "harness: handshake failed"
 				}
 			}
-			time.Sleep(2 * time.Millisecond)
+			if !s.awaitCmd("getheaders", 1, 10*time.Second) {
+				return divs, "harness: the node did not ask its verification question"
+			}
 			ok := pingStep(s, s.build("hdrBSV"))
 			for d := time.Now().Add(5 * time.Second); ok && !s.node.IsReady() && time.Now().Before(d); {
 				time.Sleep(time.Millisecond)
